@@ -550,6 +550,38 @@ func c06(r *lp.Run) {
 		}
 	}
 	r.Exhaustive("admission (parser style table + generator parameter checks)", "all 4×7×2×7 = 392 configurations (3 flat + 4 nested shapes)")
+	// admission of a parameter does not depend on what else uses its schema: the same configurations with the
+	// schema in a component that an earlier parameter (in a configuration that admits every flat shape) uses too
+	perm := map[string][2]string{"path": {"simple", "false"}, "query": {"form", "true"}, "header": {"simple", "false"}, "cookie": {"form", "false"}}
+	schemas := map[string]string{"prim": `{"type":"string"}`, "arr": `{"type":"array","items":{"type":"string"}}`, "obj": `{"type":"object","properties":{"a":{"type":"string"},"b":{"type":"string"}}}`}
+	for _, loc := range []string{"path", "query", "header", "cookie"} {
+		for _, st := range allStyles {
+			for _, ex := range []bool{false, true} {
+				for _, sh := range []string{"prim", "arr", "obj"} {
+					pkey := fmt.Sprintf("%s %s %v %s", loc, perm[loc][0], perm[loc][1] == "true", sh)
+					key := fmt.Sprintf("%s %s %v %s", loc, st, ex, sh)
+					if !admitted[pkey] {
+						continue
+					}
+					path, req := "/x", "false"
+					if loc == "path" {
+						path, req = "/x/{p1}/{p2}", "true"
+					}
+					doc := fmt.Sprintf(`{"openapi":"3.0.3","info":{"title":"t","version":"1"},"paths":{%q:{"get":{"operationId":"op","parameters":[`+
+						`{"name":"p1","in":%q,"required":%s,"style":%q,"explode":%s,"schema":{"$ref":"#/components/schemas/S"}},`+
+						`{"name":"p2","in":%q,"required":%s,"style":%q,"explode":%v,"schema":{"$ref":"#/components/schemas/S"}}],`+
+						`"responses":{"200":{"description":"ok"}}}}},"components":{"schemas":{"S":%s}}}`,
+						path, loc, req, perm[loc][0], perm[loc][1], loc, req, st, ex, schemas[sh])
+					ok, why := genAccepts(doc)
+					r.PropCheck()
+					r.Count("admit-shared "+key, "admit-shared:"+b2s(ok), true)
+					if ok != admitted[key] {
+						r.Fail(lp.PropFail{Property: "C06", What: "whether a parameter configuration is admitted depends on another parameter that uses the same schema component", Input: map[string]any{"location": loc, "style": st, "explode": ex, "shape": sh, "spec": doc}, Observed: fmt.Sprintf("admitted=%v %s", ok, why), Expected: fmt.Sprintf("admitted=%v as for the configuration alone", admitted[key])})
+					}
+				}
+			}
+		}
+	}
 
 	// B. values
 	alpha := []string{"", "a", ",", ".", ";", "=", "|", " ", "%", "/", "é", "a,b", "[", "]", "&", "+", "\"", "%2C"}
